@@ -384,6 +384,14 @@ Definition expectation_ok (evs dels : list event) (x : sx) : bool :=
         | Some n, c :: _ => (c =? n)%N
         | _, _ => false
         end
+      else if sx_is "max-eof" t then
+        (* at most n readers (DATA or chunked deliveries) ended with EOF *)
+        match sx_N a with
+        | Some n => (N.of_nat (List.length (filter (fun e => match e with
+                                                            | EData _ tm _ _ | EDelivery _ tm _ _ => is_eof tm
+                                                            | _ => false end) (evs ++ dels))) <=? n)%N
+        | None => false
+        end
       else if sx_is "max-250" t then
         match sx_N a with
         | Some n => (N.of_nat (List.length (filter (fun c => (c =? 250)%N) codes)) <=? n)%N
